@@ -333,18 +333,26 @@ func (m *Monitor) checkDotFailure(pd *parsedDot, info *invInfo, verr error) {
 		m.stats["dot.failure-excluded"]++
 		return
 	}
-	byName := map[string]*Reg{}
-	dynamic := false
+	// A cluster is matched to its registration by the function's name and the results it holds. Reflect-made
+	// functions all share one name (and one ID, as registrations of the same function in several scopes do):
+	// there the results alone have to tell the registrations apart, and a picture in which two candidates hold
+	// the same results is not judged.
+	cands := map[string][]*Reg{}
 	for _, r := range m.regs {
-		if r.F.Pool == 0 {
-			dynamic = true
-		}
-		byName[ctorDotName(r.F)] = r
+		k := ctorDotName(r.F) + "|" + regClusterSigResults(r)
+		cands[k] = append(cands[k], r)
 	}
-	if dynamic {
-		// reflect-made functions share one id: failure marking is outside the claim
-		m.stats["dot.failure-excluded"]++
-		return
+	byName := map[string]*Reg{}
+	for _, pc := range pd.clusters {
+		k := pc.name + "|" + resultsSig(pc)
+		switch len(cands[k]) {
+		case 1:
+			byName[pc.name+"|"+pc.idx] = cands[k][0]
+		case 0:
+		default:
+			m.stats["dot.failure-ambiguous-excluded"]++
+			return
+		}
 	}
 	var root *Reg
 	if info.failedFn >= 0 {
@@ -365,13 +373,13 @@ func (m *Monitor) checkDotFailure(pd *parsedDot, info *invInfo, verr error) {
 	var red []*Reg
 	inPic := map[*Reg]bool{}
 	for _, pc := range pd.clusters {
-		r := byName[pc.name]
+		r := byName[pc.name+"|"+pc.idx]
 		if r == nil {
-			m.violate("C19", "C19.failure-unknown-cluster", "cluster %q is no accepted constructor", pc.name)
+			m.violate("C19", "C19.failure-unknown-cluster", "cluster %q holding %v is no accepted constructor", pc.name, pc.results)
 			return
 		}
-		if regClusterSigResults(r) != resultsSig(pc) {
-			m.violate("C19", "C19.failure-cluster-results", "cluster %s holds results %v, want %v", pc.name, pc.results, regResultIDs(r))
+		if inPic[r] {
+			m.violate("C19", "C19.failure-unknown-cluster", "two clusters %q holding %v for one accepted constructor", pc.name, pc.results)
 			return
 		}
 		switch pc.color {
@@ -491,7 +499,7 @@ func (m *Monitor) checkDotFailure(pd *parsedDot, info *invInfo, verr error) {
 		}
 	}
 	for _, pc := range pd.clusters {
-		r := byName[pc.name]
+		r := byName[pc.name+"|"+pc.idx]
 		declared := map[string]int{}
 		declGroups := map[string]int{}
 		var must []string
